@@ -1,5 +1,7 @@
 import Sebuf.Lemmas.TsWitness
 import Sebuf.Gen.TsDecl
+import Sebuf.Gen.PropNames
+import Sebuf.Lemmas.PropName
 /-!
 # C07 — wire JSON and handler inputs inhabit the generated TypeScript types
 
@@ -339,5 +341,25 @@ theorem not_full : ¬ Full := by
   have h1 := hall (n0 + 6) (by omega)
   rw [nested_int64_wire_not_inhabits n0 F] at h1
   cases h1
+
+/-! ### the handler argument's URL-bound properties carry the declared names -/
+
+/-- the emitted route fills a path variable into the property the request interface declares for the
+bound field (its JSON name, explicit `json_name` included): no undeclared property is added and the
+declared one is not left out. -/
+theorem handler_path_prop_is_declared (fields : List Field) (f : Field) (hf : f ∈ fields)
+    (hd : (fields.map Field.name).Nodup) : PropName.tsServerPathProp fields f.name = some f.json := by
+  unfold PropName.tsServerPathProp
+  rw [PropName.find_name_of_distinct fields f hf hd]; rfl
+
+/-- **regenerated tie**: in the text the REAL ts-server plugin emits for the probe schema, every
+interface member, every `body.<prop> = pathParams[…]` and every query-parameter member is the JSON
+name of the probe field (with and without an explicit `json_name`). -/
+theorem emitted_server_property_names_are_declared :
+    ∀ u ∈ Gen.PropNames.uses, u.1 = "ts-server" →
+      ∃ p ∈ Gen.PropNames.probe, p.1 = u.2.2.1 ∧ u.2.2.2.toList = (PropName.probeField p).json := by decide
+
+theorem emitted_server_property_names_nonvacuous :
+    (Gen.PropNames.uses.filter (fun u => u.1 == "ts-server" && u.2.1 == "path:GetIt")).length = 2 := by decide
 
 end Sebuf.C07
